@@ -73,3 +73,8 @@ CASES += [
         ("quantarhei/core/dfunction.py", "            with energy_units(\"int\"):\n                Y = w.length*numpy.fft.fftshift(numpy.fft.ifft(\n                    numpy.fft.ifftshift(y)))*w.step/(numpy.pi*2.0)",
          "            if True:\n                Y = w.length*numpy.fft.fftshift(numpy.fft.ifft(\n                    numpy.fft.ifftshift(y)))*w.step/(numpy.pi*2.0)", 1)]},
 ]
+
+CASES += [
+    {"name": "values branch sums the reorganisation energies of the caller's dictionaries", "kind": "mutant", "rule": "C05-U8", "edits": [
+        ("quantarhei/qm/corfunctions/correlationfunctions.py", "                for prms in self.params:\n                    self.lamb += prms[\"reorg\"]", "                for prms in p2calc:\n                    self.lamb += prms[\"reorg\"]", 1)]},
+]
